@@ -2,6 +2,7 @@ package main
 
 import (
 	"bytes"
+	"encoding/json"
 	"go/token"
 	"os"
 	"path/filepath"
@@ -72,5 +73,43 @@ func init() {
 	reg("google.golang.org/protobuf/proto.Marshal", func(m *Machine, fr *frame, a []Value) Value {
 		m.stubs["opaque:proto.Marshal"]++
 		return Tuple{sliceOfStr(CStr("<protobuf>")), Iface{}}
+	})
+}
+
+func init() {
+	// encoding/json.Unmarshal into *string: native on concrete text; on symbolic bytes only the plain
+	// case "<printable ASCII without quote/backslash>" is modelled (anything else is unsupported).
+	reg("encoding/json.Unmarshal", func(m *Machine, fr *frame, a []Value) Value {
+		data := strOfSlice(a[0].([]Value))
+		tgt := a[1].(Iface)
+		ptr, ok := tgt.V.(*Value)
+		if !ok || ptr == nil {
+			m.unsupported("json.Unmarshal into %s", tgt.T)
+		}
+		if _, isStr := (*ptr).(Str); !isStr {
+			m.unsupported("json.Unmarshal into %s", tgt.T)
+		}
+		if cs, ok := data.Concrete(); ok {
+			var out string
+			if err := json.Unmarshal([]byte(cs), &out); err != nil {
+				return mkErr(m, CStr(err.Error()))
+			}
+			*ptr = CStr(out)
+			return Iface{}
+		}
+		bs := data.Bytes()
+		n := len(bs)
+		if n < 2 || !bs[0].IsConst() || bs[0].C != '"' || !bs[n-1].IsConst() || bs[n-1].C != '"' {
+			m.unsupported("json.Unmarshal of symbolic text that is not a quoted string")
+		}
+		for _, b := range bs[1 : n-1] {
+			plain := AndAll([]*Term{BVCmp(OpBVUle, BV(8, 0x20), b), BVCmp(OpBVUlt, b, BV(8, 0x80)), Not(Eq(b, BV(8, '"'))), Not(Eq(b, BV(8, '\\')))})
+			if !m.decide(plain) {
+				m.unsupported("json.Unmarshal of a symbolic string with escapes/control/non-ASCII bytes")
+			}
+		}
+		m.stubs["model:json.Unmarshal(plain quoted ASCII string)"]++
+		*ptr = StrFromTerms(append([]*Term(nil), bs[1:n-1]...))
+		return Iface{}
 	})
 }
